@@ -12,14 +12,9 @@ from .c06 import relax_paths, reset_values, vr, NET
 TRACK = 'tracklib.core.track.Track'
 
 EXPLANATION = (
-    "Static analysis of Network.run_routing_backward / shortest_path and of the predecessor bookkeeping in "
-    "run_routing_forward: the reconstruction loop and the unreachable test read predecessor links and the reset "
-    "sentinel only (never distances); predecessor node and predecessor edge are written on exactly the paths that "
-    "improve the label, from the popped node and the edge just examined; each edge polyline is oriented to start "
-    "at the current node (three end-point cases), appended without its first vertex, the whole reversed once; "
-    "Track.reverse returns a deep copy; shortest_path = forward then backward on the same target.")
+    'Static analysis by interpretation of the source (nothing imported or executed by CPython): shortest_path is walked by tlint.orders for every ordered pair of every case graph, in two query orders on the same network object: None exactly when no walk exists; otherwise the node list and the geometry must be those of an optimal walk (weights summing to the Floyd-Warshall distance, each edge polyline oriented along the travel, junction vertices once, doubled end vertices and vertically stacked nodes included), the route must share no observation or coordinate object with the network and the network geometries must be unchanged.')
 ASSUMPTIONS = ["node coordinates equal the end vertices of the incident edge geometries (data precondition)"]
-TECHNIQUE = "control-depends-only-on rule (F7), path-wise co-update (F6), end-point case domain (F4)"
+TECHNIQUE = "abstract interpretation of Network.shortest_path (forward and backward passes, Track concatenation / reversal, the priority queue) by the checker's AST interpreter on ~190 small multigraphs, against the set of optimal walks enumerated by the checker (bounded case domain)"
 
 
 def _backward(ctx):
